@@ -127,6 +127,21 @@ TARGETS = [
         rewrites=[(r"\.await\b", ""), (r"\bSelf::add_edns\b", "add_edns_shim")],
     ),
     dict(
+        name="http_serve_request", file="crates/erbium-core/src/http.rs",
+        header=r"async\s+fn\s+serve_request\s*<[^{]*\{",
+        signature="pub fn lifted_http_serve_request(method: &hyper::Method, path: &str, acls: &[acl::Acl], client: &acl::Attributes) -> HttpOutcome",
+        rewrites=[(r"let\s+client\s*=\s*acl::Attributes\s*\{[^}]*\};", ""),
+                  (r"match\s*\(\s*req\.method\(\)\s*,\s*req\.uri\(\)\.path\(\)\s*\)", "match (method, path)"),
+                  (r"require_http_permission\(\s*&conf\.read\(\)\.await\.acls\s*,\s*&client\s*,", "verif_require(acls, client,"),
+                  (r"\bOk\(ret\)", "HttpOutcome::Denied"),
+                  ("BALANCED:Ok(Response::new(", "HttpOutcome::Root"),
+                  ("BALANCED:Ok(Response::builder()", "HttpOutcome::NotFound"),
+                  (r"dhcp\.update_metrics\(\)\.await;", ""),
+                  (r"serve_metrics\(req\)\.await", "HttpOutcome::Metrics"),
+                  (r"serve_leases\(req,\s*&dhcp\)\.await", "HttpOutcome::Leases")],
+        must_not_contain=r"\.await|\breq\b|\bdhcp\b|\bconf\b",
+    ),
+    dict(
         name="cache_handle_query", file="crates/erbium-core/src/dns/cache/mod.rs",
         header=r"pub\s+async\s+fn\s+handle_query\s*\(\s*&self\s*,\s*msg\s*:\s*&super::DnsMessage\s*,\s*addr\s*:\s*std::net::SocketAddr\s*,?\s*\)\s*->\s*Result<dnspkt::DNSPkt,\s*Error>\s*\{",
         signature="pub fn lifted_cache_handle_query(self_: &CacheShim, msg: &crate::dns::DnsMessage, addr: std::net::SocketAddr) -> Result<dnspkt::DNSPkt, Error>",
@@ -294,6 +309,34 @@ def generate_exprs(status, notes):
         notes.append(f"lifted the initialiser of `let {t['binding']}` from {t['file']} fn at line {line}")
 
 
+def replace_balanced(text, start_token, replacement):
+    """replace every `<start_token> ... <matching close paren of the FIRST paren in start_token>` by `replacement`"""
+    out, i = [], 0
+    while True:
+        k = text.find(start_token, i)
+        if k < 0:
+            out.append(text[i:])
+            return "".join(out)
+        p0 = text.index("(", k)
+        depth, j = 0, p0
+        while j < len(text):
+            c = text[j]
+            if c == '"':
+                j += 1
+                while j < len(text) and text[j] != '"':
+                    j += 2 if text[j] == "\\" else 1
+            elif c == "(":
+                depth += 1
+            elif c == ")":
+                depth -= 1
+                if depth == 0:
+                    break
+            j += 1
+        out.append(text[i:k])
+        out.append(replacement)
+        i = j + 1
+
+
 def generate():
     """Write one file per target into GEN_DIR. Returns {name: error or None} and the list of evidence notes."""
     os.makedirs(GEN_DIR, exist_ok=True)
@@ -315,12 +358,17 @@ def generate():
                         % t["signature"].replace("self_", "_self_").replace("msg:", "_msg:"))
             continue
         for pat, rep in t["rewrites"]:
-            body = re.sub(pat, rep, body, flags=re.S)
+            if pat.startswith("BALANCED:"):
+                body = replace_balanced(body, pat[len("BALANCED:"):], rep)
+            else:
+                body = re.sub(pat, rep, body, flags=re.S)
+        if t.get("must_not_contain") and re.search(t["must_not_contain"], body):
+            status[t["name"]] = f"lifted body of {t['name']} still contains /{t['must_not_contain']}/ (source changed shape)"
         with _atomic(out) as f:
             f.write("// GENERATED on every run by /verif/lib/lift.py from %s:%d - body verbatim except: %s\n" % (
                 t["file"], line, "; ".join(f"s/{p}/{r}/" for p, r in t["rewrites"])))
             f.write("#[allow(unused_variables, unused_mut, clippy::all)]\n")
             f.write(t["signature"] + " {" + body + "}\n")
-        status[t["name"]] = None
+        status.setdefault(t["name"], None)
         notes.append(f"lifted {t['name']} from {t['file']}:{line} (rewrites: {[p for p, _ in t['rewrites']]})")
     return status, notes
